@@ -1,7 +1,133 @@
-//! C03 — not built yet
-use crate::vcore::Tier;
+//! C03 — each instruction takes the documented T-states in the documented bus cycles.
+//! Same lock-step product engine as C01, comparing the complete call-granular bus-cycle list
+//! (fetch-4 / read-3 / write-3 with addresses, every single delay T-state with its address, port
+//! cycles), plus interrupt entry in IM 0/1/2 and NMI.
 
-pub fn run(_tier: Tier, _seed: u64, _replay: Option<String>) -> i32 {
-    eprintln!("MACHINERY: check C03 is not built yet");
-    2
+use crate::rig;
+use crate::vcore::{par_for, Ctx, Tier};
+use crate::z80lock::*;
+use crate::z80prod::*;
+use serde_json::json;
+
+/// Interrupt entry: total T, stack writes and vector reads (the order of the acknowledge cycle
+/// and the stack writes inside the entry is not judged)
+fn interrupt_entry(ctx: &Ctx) {
+    let encs = all_encodings();
+    // the instruction executed right after the entry is NOP at the vector; the interrupted
+    // program is any encoding (its first byte is never fetched)
+    par_for(encs.len(), 16, |k| {
+        let (kind, op) = encs[k];
+        for which in 0..2u8 {
+            for im in 0..3u8 {
+                for nmi in [false, true] {
+                    for halted in [false, true] {
+                        let mut c = match base_case(kind, op, which, 0x8000) {
+                            Some(c) => c,
+                            None => return,
+                        };
+                        c.st.im = im;
+                        c.st.iff1 = true;
+                        c.st.iff2 = true;
+                        c.st.int_inhibit = false;
+                        c.st.halted = halted;
+                        if halted {
+                            c.code[0] = 0x76;
+                            c.code_len = 1;
+                        }
+                        c.env.int_line = !nmi;
+                        c.env.nmi_line = nmi;
+                        c.env.ack_byte = if which == 0 { 0xFF } else { 0x12 };
+                        c.finalize();
+                        // handler's first instruction: NOP at 0038 / 0066 / vector target
+                        c.env.preset_byte(0x0038, 0x00);
+                        c.env.preset_byte(0x0066, 0x00);
+                        let r = run_ref(&c);
+                        let i = match run_impl(&c) {
+                            Ok(i) => i,
+                            Err(p) => {
+                                ctx.violation("C03:int-entry:panic", &p, case_json(kind, op, &c));
+                                continue;
+                            }
+                        };
+                        ctx.add_eval(1);
+                        // entry portion = events before the first M1
+                        let split = |l: &[Ev]| -> (Vec<Ev>, Vec<Ev>) {
+                            let p = l.iter().position(|e| matches!(e, Ev::M1(..))).unwrap_or(l.len());
+                            (l[..p].to_vec(), l[p..].to_vec())
+                        };
+                        let (ie, irest) = split(i.log.slice());
+                        let (re, rrest) = split(r.log.slice());
+                        let t = |l: &[Ev]| -> u32 {
+                            let mut g = Log::new();
+                            for e in l {
+                                g.push(*e);
+                            }
+                            g.t_states()
+                        };
+                        let data = |l: &[Ev]| -> Vec<Ev> {
+                            let mut v: Vec<Ev> = l.iter().filter(|e| matches!(e, Ev::Rd(..) | Ev::Wr(..))).cloned().collect();
+                            v.sort_by_key(|e| match e {
+                                Ev::Rd(a, _) => (0, *a),
+                                Ev::Wr(a, _) => (1, *a),
+                                _ => (2, 0),
+                            });
+                            v
+                        };
+                        let mode = if nmi { "nmi".to_string() } else { format!("im{}", im) };
+                        if t(&ie) != t(&re) {
+                            ctx.violation(
+                                &format!("C03:int-entry:{}:t-states", mode),
+                                &format!("interrupt entry ({}{}) takes {} T, documented {} T: impl [{}] documented [{}]", mode, if halted { ", from HALT" } else { "" }, t(&ie), t(&re), fmt_log(&ie), fmt_log(&re)),
+                                case_json(kind, op, &c),
+                            );
+                        } else if data(&ie) != data(&re) {
+                            ctx.violation(
+                                &format!("C03:int-entry:{}:accesses", mode),
+                                &format!("interrupt entry ({}) memory accesses differ: impl [{}] documented [{}]", mode, fmt_log(&ie), fmt_log(&re)),
+                                case_json(kind, op, &c),
+                            );
+                        } else if irest != rrest {
+                            ctx.violation(
+                                &format!("C03:int-entry:{}:first-handler-instruction", mode),
+                                &format!("after interrupt entry: impl [{}] documented [{}]", fmt_log(&irest), fmt_log(&rrest)),
+                                case_json(kind, op, &c),
+                            );
+                        }
+                        ctx.outcome(crate::vcore::fnv(format!("{}{}{}", mode, halted, t(&re)).as_bytes()));
+                    }
+                }
+            }
+        }
+    });
+}
+
+pub fn run(tier: Tier, seed: u64, replay: Option<String>) -> i32 {
+    let ctx = Ctx::new("C03", tier, seed, "model_checking");
+    if let Some(path) = replay {
+        let v: serde_json::Value = serde_json::from_slice(&rig::read_file(&path)).expect("replay json");
+        if let Some((kind, op, c)) = case_from_json(&v["case"]) {
+            println!("replay: encoding {} {:02x}, state {:x?}, int={} nmi={}", kind_name(kind), op, c.st, c.env.int_line, c.env.nmi_line);
+            compare_case(&ctx, Mode::Cycles, kind, op, &c, true);
+        }
+        let n = ctx.violation_classes();
+        println!("replay: {} violation class(es) reproduced", n);
+        return (n > 0) as i32;
+    }
+    if let Err(e) = crate::oracle::require_valid() {
+        eprintln!("MACHINERY: reference model not validated: {}", e);
+        return 2;
+    }
+    if tier.is_thorough() {
+        run_product(&ctx, Mode::Cycles, &[0x8000, 0xFFFE, 0x3FFF], 1 << 17, false, seed);
+    } else {
+        run_product(&ctx, Mode::Cycles, &[0x8000], 2048, false, seed);
+    }
+    interrupt_entry(&ctx);
+    ctx.note("oracle_validation", crate::oracle::status_json());
+    ctx.note("cycle_table_validation", json!("RefZ80 unit table: 121 instruction variants against the Zilog totals, interrupt entry 13/19/11, bus-event order of 20 instructions (cargo test -p refz80)"));
+    ctx.finish(
+        "for each of the 1786 encodings, the product of the domains of every atom the reference bus-cycle list or result depends on (flags for conditional forms, B, BC, A==(HL) for repeats, operands, all address registers), two backgrounds with pairwise distinct recognisable register values, executed on Z80::emulate with a call-logging bus and on RefZ80; compared: the ordered list of (fetch-4 | read-3 | write-3 | single delay T with its address | port cycle | idle) calls; interrupt entry in IM0/1/2 and NMI, running and halted, after every encoding (total T and accesses; internal order not judged). distinct = distinct reference cycle lists",
+        true,
+        &["documented cycle lists are RefZ80's (FUSE/Zilog breakdowns), totals unit-tested against the Zilog manual", "the 4-T length of port cycles at machine level is checked in C04"],
+    )
 }
